@@ -12,7 +12,8 @@ Two document families = the claimed input domain of C03:
       annotation-xml[encoding=text/html|application/xhtml+xml]) explicitly closed, with well-nested HTML
       inside — including text-mode elements and, recursively, islands.
  (iii) the shapes of package tb's findings (docs/pkg-tb.md §5: template + col, select popped with its template +
-      frameset, mglyph / malignmark in a MathML text integration point, frameset inside an integration point, and
+      frameset, mglyph / malignmark in a MathML text integration point, frameset inside an integration point, a table-structure
+      start tag inside an integration point of an island in a table, an end tag walking to a foreign ancestor, and
       the legacy-select-only shapes) with their near-misses — tag soup in the HTML namespace resp. well-nested
       islands, i.e. inside (i) / (ii), but too rare to be hit by those streams.
 Restrictions that only serve the comparison with html5ever (see harness/src/lanes/h5.rs): no `&`, no
@@ -214,6 +215,9 @@ KNOWN = [
     "<template><col><textarea><script>alert(1)</script></textarea>", "<template><select></template><frameset><script><frame src=x></script>",
     "<math><mi><mglyph><textarea><img src onerror=alert(1)>", "<svg><desc><frameset></frameset></desc><noframes><b>x</b></noframes>",
     "<svg><desc><frameset></frameset></desc><![CDATA[<b>]]>",
+    "<table><tr><td><svg><foreignObject><td></td></foreignObject><![CDATA[><img src onerror=alert(1)>]]>",
+    "<table><svg><desc><td></td></desc><![CDATA[><script>alert(1)</script>]]>", "<svg><a><desc><a><a></a></a><textarea><img src onerror=alert(1)>",
+    "<svg><x><desc><p><x><hr></x><textarea><img src onerror=alert(1)>",
     "<table><td><select><td><select><xmp><script>alert(1)</script>", "<template><select></template><select><xmp>", "<body><frameset><select><noframes>",
 ]
 
@@ -397,7 +401,106 @@ def tb3(rng):
     return "tb3:legacy", doc
 
 
-TB_STREAMS = [tb1] * 3 + [tb2] * 2 + [tb4] * 2 + [tb5] * 2 + [tb3]
+TABLE_STRUCT = ["caption", "col", "colgroup", "tbody", "td", "tfoot", "th", "thead", "tr"]
+ISLAND_IPS = [("<svg>", "<desc>", "</desc>", "</svg>"), ("<svg>", "<title>", "</title>", "</svg>"),
+              ("<svg>", "<foreignObject>", "</foreignObject>", "</svg>"), ("<math>", "<mi>", "</mi>", "</math>"),
+              ("<math>", "<annotation-xml encoding=text/html>", "</annotation-xml>", "</math>"),
+              ("<svg><g>", "<desc>", "</desc>", "</g></svg>"), ("<math><mrow>", "<mtext>", "</mtext>", "</mrow></math>")]
+# content that a parser still inside the island (SVG / MathML) and a parser back in HTML tokenise differently
+AFTER_IP = ["<![CDATA[><img src onerror=alert(1)>]]>", "<![CDATA[><script>alert(1)</script>]]>", "<textarea><img src onerror=alert(1)></textarea>",
+            "<style><b></style>", "<![CDATA[<b>]]>", "<title><i></title>", "<g></g>", "", "x"]
+
+
+def tb7(rng):
+    """F-tb-7: a table-structure start tag inside an integration point of an island that sits in a table."""
+    # (prefix reaching a table insertion mode, may `table` act there?)
+    cell_ctx = [("<table><tr><td>", False), ("<table><td>", False), ("<table><tr><th>", False), ("<table><caption>", False),
+                ("<table><tbody><tr><td>a", False), ("<div><table><tr><td>", False)]
+    foster_ctx = [("<table>", True), ("<table><tr>", True), ("<table><tbody>", True), ("<table><thead><tr>", True)]
+    ctx, table_acts = rng.choice(cell_ctx + cell_ctx + foster_ctx)
+    root_o, ip_o, ip_c, root_c = rng.choice(ISLAND_IPS)
+    wrap_o, wrap_c = rng.choice([("", ""), ("", ""), ("<b>", "</b>"), ("<div>", "</div>"), ("<p>", "</p>"), ("<span><i>", "</i></span>")])
+    if "annotation-xml" in ip_o and wrap_o in ("<p>", "<div>"):
+        # html5ever does not treat annotation-xml as a scope boundary (docs/pkg-ref.md): a stray </p> or a <div> with an
+        # open <p> outside would be artefacts of the oracle
+        wrap_o, wrap_c = "", ""
+    tags = TABLE_STRUCT + (["table"] if table_acts else [])
+    t = rng.choice(tags)
+    # (`table` is always closed: an open table makes the tree builder ignore the end tags behind it — F-tb-6 family)
+    tag = tag_open(rng, t) + rng.choice(["", "", "x", " "]) + ("" if t == "col" else "</table>" if t == "table" else rng.choice(["</" + t + ">", "</" + t + ">", ""]))
+    after = rng.choice(AFTER_IP)
+    tail = rng.choice(["", "", "</td></tr></table>", "</table>", "x", "<p>y</p>"])
+    closes = rng.choice([ip_c, ip_c, ""]) + after + rng.choice([root_c, root_c, ""])
+    if rng.random() < 0.5:
+        return "tb7:pos", ctx + root_o + ip_o + wrap_o + tag + wrap_c + closes + tail
+    v = rng.randrange(7)
+    if v == 0:    # the island is not inside a table: "in body" ignores the tag
+        doc = rng.choice(["", "<div>", "<p>", "<!DOCTYPE html>", "<ul><li>"]) + root_o + ip_o + wrap_o + tag + wrap_c + closes + tail.replace("</td></tr></table>", "").replace("</table>", "")
+    elif v == 1:  # a table of its own inside the integration point: the tag belongs to that table
+        if t == "table":  # (`<table>` in a table mode of the inner table closes it: the surplus </table> is the end-tag form of the shape)
+            tag = "<tr><td>x</td></tr>"
+        inner = "<table>" + rng.choice(["", "<tr>", "<tbody>"]) + tag + "</table>"
+        doc = rng.choice([c for c, _ in cell_ctx]) + root_o + ip_o + wrap_o + inner + wrap_c + ip_c + after + root_c + tail
+    elif v == 2:  # `<table>` in a cell / caption: "in body" inserts a nested table
+        c2 = rng.choice([c for c, _ in cell_ctx])
+        doc = c2 + root_o + ip_o + wrap_o + "<table></table>" + wrap_c + ip_c + after + root_c + tail
+    elif v == 3:  # the island is closed before the tag
+        doc = ctx + root_o + ip_o + wrap_o + wrap_c + ip_c + root_c + tag + after + tail
+    elif v == 4:  # the tag in foreign (non-integration-point) content: a foreign element
+        doc = ctx + root_o + tag + after + root_c + tail
+    elif v == 5:  # a template between the table and the island: mode "in body"
+        doc = rng.choice(["<table><tr><td>", "<td>", "<table><td>"]) + "<template>" + root_o + ip_o + wrap_o + tag + wrap_c + ip_c + after + root_c + "</template>" + tail
+    else:         # other start tags in the same place
+        other = rng.choice(["div", "b", "li", "option", "x", "span"])  # (not p: a stray </p> in annotation-xml is an html5ever artefact)
+        doc = ctx + root_o + ip_o + wrap_o + f"<{other}>x</{other}>" + wrap_c + ip_c + after + root_c + tail
+    return "tb7:near", doc
+
+
+def tb8(rng):
+    """F-tb-8: an end tag arriving while the integration-point element is the current node walks down the foreign
+    part of the stack and pops a like-named foreign ancestor."""
+    pre = rng.choice(["", "", "<p>", "<div>a", "<!DOCTYPE html>"])
+    math = rng.random() < 0.3
+    if math:
+        root, anc, ip, ip_c = "math", rng.choice(["mrow", "x", "semantics"]), rng.choice(MATH_TEXT_IPS), None
+    else:
+        root, anc, ip, ip_c = "svg", rng.choice(["a", "a", "x", "g", "text"]), rng.choice(["desc", "title", "foreignObject"]), None
+    ip_o, ip_c = f"<{ip}>", f"</{ip}>"
+    after = rng.choice(["<textarea><img src onerror=alert(1)>", "<textarea><b></textarea>", "<style><b></style>", "<![CDATA[<b>]]>",
+                        "<title><i></title>", "x", ""])
+    tail = rng.choice(["", f"</{root}>", f"</{ip}></{root}>", "<p>y"])
+    # ways to have </anc> arrive with the integration point as current node
+    forms = []
+    if anc == "a":
+        forms.append(f"<a><a></a></a>")                      # adoption agency closes the first <a>
+        forms.append(f"<a>x<a>y</a></a>")
+    forms.append(f"<p><{anc}><hr></{anc}>")                   # <hr> closes the <p> (and the <{anc}> in it)
+    forms.append(f"<p><{anc}><div></div></{anc}>")
+    forms.append(f"<li><{anc}><li></{anc}>")
+    forms.append(f"</{anc}>")                                  # stray
+    forms.append(f"<{anc}></{anc}></{anc}>")                  # one end tag too many
+    forms.append(f"<b></b></{anc.upper()}>")
+    form = rng.choice(forms)
+    if rng.random() < 0.5:
+        return "tb8:pos", pre + f"<{root}><{anc}{fattrs(rng)}>" + ip_o + form + after + tail
+    v = rng.randrange(6)
+    if v == 0:    # the HTML child closed explicitly, everything well-nested
+        doc = pre + f"<{root}><{anc}>" + ip_o + f"<{anc}>x</{anc}>" + ip_c + f"</{anc}>" + after.replace("<![CDATA[<b>]]>", "") + f"</{root}>"
+    elif v == 1:  # no like-named foreign ancestor
+        other = "g" if anc != "g" else "x"
+        doc = pre + f"<{root}><{other}>" + ip_o + form + after + tail
+    elif v == 2:  # the like-named ancestor is an HTML element outside the island
+        doc = pre + f"<{anc}><{root}>" + ip_o + form + after + tail
+    elif v == 3:  # an HTML element is still open in the integration point: "in body" handles the end tag
+        doc = pre + f"<{root}><{anc}>" + ip_o + f"<div></{anc}>" + after + tail
+    elif v == 4:  # the end tag is the integration point's own
+        doc = pre + f"<{root}><{anc}>" + ip_o + "<b></b>" + ip_c + after.replace("<![CDATA[<b>]]>", "<![CDATA[x]]>") + f"</{anc}></{root}>"
+    else:         # an HTML integration point between: the walk stops at the HTML element
+        doc = pre + f"<{root}><{anc}>" + ip_o + f"<div><{root}>" + ip_o + f"</{anc}>" + after + tail
+    return "tb8:near", doc
+
+
+TB_STREAMS = [tb1] * 3 + [tb2] * 2 + [tb4] * 2 + [tb5] * 2 + [tb3] + [tb7] * 3 + [tb8] * 3
 LABELS = {}
 
 
@@ -421,7 +524,7 @@ def gen(rng, n, tier, pid):
         label = None
         if r < 0.45:
             doc = soup_document(rng)
-        elif r < 0.785:
+        elif r < 0.74:
             doc = foreign_document(rng, no_known=rng.random() < 0.4)
         elif r < 0.985:
             label, doc = rng.choice(TB_STREAMS)(rng)
